@@ -62,6 +62,23 @@ def has_non_semicolon(row):
     return any(c not in "SE" for c in row.get("kinds") or "")
 
 
+CONSTRUCTS = [
+    "SELECT a[1], b[2:3], c[1][2] FROM t", "SELECT a[1] FROM t WHERE b[2] = c[3]", "SELECT CASE WHEN a = 1 THEN 'x' WHEN a = 2 THEN 'y' ELSE 'z' END FROM t",
+    "SELECT CAST(a AS INT), b::text FROM t", "SELECT COUNT(*) FILTER (WHERE a > 1) FROM t", "SELECT a FROM t WHERE a IN (1, 2, 3) AND b BETWEEN 1 AND 2",
+    "SELECT a FROM t WHERE EXISTS (SELECT 1 FROM u) AND a NOT IN (SELECT b FROM u)", "SELECT INTERVAL '1 day', EXTRACT(YEAR FROM d) FROM t",
+    "SELECT (1, 2), ROW(1, 2) FROM t", "SELECT ARRAY[1, 2, 3] FROM t", "SELECT SUM(a) OVER (PARTITION BY b ORDER BY c ROWS BETWEEN 1 PRECEDING AND CURRENT ROW) FROM t",
+    "SELECT a FROM t WHERE a IS NULL OR b IS NOT NULL", "SELECT a -> 'k', b ->> 'j', c #> '{x}' FROM t", "SELECT a FROM t WHERE a LIKE 'x%' OR b ILIKE 'y%'",
+    "SELECT -a, +b, NOT c FROM t", "SELECT f(a, g(b)), UPPER(c) FROM t", "SELECT a FROM t ORDER BY a DESC NULLS LAST LIMIT 3 OFFSET 1",
+    "SELECT a FROM t GROUP BY ROLLUP (a, b), CUBE (c)", "SELECT a FROM t GROUP BY GROUPING SETS ((a), (b, c), ())", "SELECT * FROM t1 JOIN t2 USING (a) LEFT JOIN t3 ON t1.a = t3.a",
+    "WITH c AS (SELECT 1) SELECT * FROM c", "SELECT a FROM t UNION ALL SELECT b FROM u EXCEPT SELECT c FROM v", "INSERT INTO t (a, b) VALUES (1, 'x'), (2, 'y') ON CONFLICT (a) DO NOTHING",
+    "UPDATE t SET a = 1, b = b + 1 WHERE c = 2 RETURNING a", "DELETE FROM t WHERE a = 1 RETURNING *",
+    "MERGE INTO t USING s ON t.id = s.id WHEN MATCHED THEN UPDATE SET a = s.a WHEN NOT MATCHED THEN INSERT (id) VALUES (s.id)",
+    "CREATE TABLE t (a INT PRIMARY KEY, b TEXT DEFAULT 'x' NOT NULL, c INT REFERENCES u (id) ON DELETE CASCADE)", "CREATE INDEX i ON t (a, b) WHERE a > 1",
+    "CREATE VIEW v AS SELECT a FROM t", "ALTER TABLE t ADD COLUMN c INT", "DROP TABLE IF EXISTS t CASCADE", "TRUNCATE TABLE t",
+    "SELECT a FROM t FOR UPDATE SKIP LOCKED", "SELECT DISTINCT ON (a) a, b FROM t", "SELECT a FROM t FETCH FIRST 3 ROWS ONLY", "SELECT $1, ?, :name FROM t",
+]
+
+
 def inputs(rng, tier):
     n = 500 if tier == "quick" else 12000
     ins = []
@@ -72,6 +89,13 @@ def inputs(rng, tier):
         ins.append(loopgen.join(rng, segs))
     ins += loopgen.soup(rng, n // 4)
     ins += loopgen.nospace_multi(rng, n // 10)
+    # one accepted statement per construct whose nodes come from the node pools (the validating entry points release
+    # their trees: a tree-returning entry point that runs next on the same text takes those very nodes)
+    ins += CONSTRUCTS
+    # characters that Unicode counts as white space but the tokenizer may not, at the very start / end of a statement
+    for s0 in ["SELECT id FROM users", "SELECT FROM", "SELECT a FROM t WHERE a = 1;"]:
+        for ch in ["\f", "\v", "\u00a0", "\u0085", "\u2003", "\u3000", "\ufeff", "\r", "\u2028", "\u200b", "\x1c", "\x00"]:
+            ins += [ch + s0, s0 + ch, ch + s0 + ch, s0.replace(" ", ch, 1)]
     ins += [";", ";;", "SELECT 1;", ";SELECT 1", "SELECT 1;;SELECT 2", "SELECT 'unterminated", "SELECT 1 FROM", "-- c\n;", "SELECT \x00"]
     ins += [loopgen.corrupt(rng, s)[1] for s in sqlgen.generated_statements(rng, n // 4)]
     ins = [k["witness"]["sql"] for k in common.known_findings("C07") if isinstance(k.get("witness"), dict) and k["witness"].get("sql")] + ins
